@@ -99,6 +99,14 @@ def run(ctx, pid='C17'):
                 mism += 1
                 if mism <= 5: print('MODEL-MISMATCH %s args=%s: mirsym %s (%s), native %s' % (s['fn'], json.dumps(s['args'])[:200], s['kind'], s['detail'], json.dumps(n)[:200]))
             continue
+        if 'ok' not in n and s.get('mem') and ('abort' in n or 'hang' in n):
+            # the heap model predicted a memory error and the real call kills the process (e.g. free of a pointer that is no allocation)
+            validated += 1
+            if pid == 'C18':
+                ctx.report('capi.mem:%s:%s' % (s['fn'], s['mem'][0].split(':')[0][:30]), '%s(%s): %s [native: %s]' % (s['fn'], json.dumps(s['args'])[:200], s['mem'][0], str(n)[:80]), case=s['native_case'])
+            else:
+                ctx.report('capi.sem:%s:abort' % s['fn'], '%s(%s) aborts the process (%s) where the Rust API returns a value' % (s['fn'], json.dumps(s['args'])[:200], str(n)[:80]), case=s['native_case'])
+            continue
         if 'ok' not in n:
             mism += 1
             if mism <= 5: print('MODEL-MISMATCH %s args=%s: mirsym ok, native %s' % (s['fn'], json.dumps(s['args'])[:200], json.dumps(n)[:200]))
